@@ -696,6 +696,8 @@ def rule_name(rule, used):
                 n += "_" + p[2][TEMPLATE_FLAG[n]][1]
             parts.append(n)
         base = f"rule_{rule['opt'].replace('_optimizer', '')}__" + "__".join(parts)
+    if len(base) > 62:   # keep the audit line (`AUDIT <name> [axioms]`) on one line
+        base = base.replace("matrix_scalar_multiply", "mscal").replace("vector_scalar_multiply", "vscal")
     n, k = base, 1
     while n in used:
         k += 1; n = f"{base}_{k}"
